@@ -186,34 +186,37 @@ def _os_move(src, dst, overwrite):
 
 
 class Handle:
+    """an open file: bound to the file object (inode), not to the name - it follows a rename"""
+
     def __init__(self, key, mode):
         t = OS.tree
         self.key, self.mode, self.pos = key, mode, 0
         if t.is_dir(key):
             raise IsADirectoryError(key)
-        if "x" in mode:
-            if t.exists(key):
-                raise FileExistsError(key)
+
+        def fresh():
             if not t.parent_ok(key):
                 raise FileNotFoundError(key)
             t.kind[key] = "file"
             t.files[key] = FileC(50 + UNIVERSE.index(key), 0)
+        if "x" in mode:
+            if t.exists(key):
+                raise FileExistsError(key)
+            fresh()
         elif mode.startswith("a"):
             if not t.exists(key):
-                if not t.parent_ok(key):
-                    raise FileNotFoundError(key)
-                t.kind[key] = "file"
-                t.files[key] = FileC(50 + UNIVERSE.index(key), 0)
+                fresh()
             self.pos = t.files[key].length()
         elif mode.startswith("w"):
             if not t.exists(key):
-                if not t.parent_ok(key):
-                    raise FileNotFoundError(key)
-                t.kind[key] = "file"
-            t.files[key] = FileC(50 + UNIVERSE.index(key), 0)
+                fresh()
+            else:  # truncation of the existing inode
+                f = t.files[key]
+                f.fid, f.base_len, f.log = 50 + UNIVERSE.index(key), 0, []
         else:
             if not t.exists(key):
                 raise FileNotFoundError(key)
+        self.f = t.files[key]
 
     def __enter__(self):
         return self
@@ -221,21 +224,41 @@ class Handle:
     def __exit__(self, *a):
         return False
 
-    def seek(self, o):
-        self.pos = o
+    def close(self):
+        pass
+
+    def flush(self):
+        pass
+
+    def tell(self):
+        return self.pos
+
+    def seek(self, o, whence=0):
+        self.pos = o if whence == 0 else (self.pos + o if whence == 1 else self.f.length() + o)
+        return self.pos
+
+    def truncate(self, size=None):
+        size = self.pos if size is None else size
+        if not (isinstance(size, int) and size == 0):
+            raise symex.Unsupported("truncate to a non-zero size is not modelled")
+        self.f.fid, self.f.base_len, self.f.log = 50 + UNIVERSE.index(self.key), 0, []
+        return 0
 
     def write(self, data):
-        OS.tree.files[self.key].log.append((self.pos, data))
+        self.f.log.append((self.pos, data))
         self.pos = self.pos + plen(data)
+        return plen(data)
 
     def read(self, n=None):
-        f = OS.tree.files[self.key]
+        f = self.f
         ln = f.length()
-        if n is None:
+        if n is None or (isinstance(n, int) and n < 0):
             n = ln
         avail = SymInt(z3.simplify(z3.If(_z(self.pos) >= _z(ln), 0,
                                          z3.If(_z(self.pos) + _z(n) <= _z(ln), _z(n), _z(ln) - _z(self.pos)))))
-        return FileSlice(f.clone(), self.pos, avail)
+        out = FileSlice(f.clone(), self.pos, avail)
+        self.pos = self.pos + avail
+        return out
 
 
 class FileSlice:
@@ -563,6 +586,72 @@ def harness(ctx, op, p, q):
         real_shutil.rmtree(root, ignore_errors=True)
 
 
+SEQ_STEPS = {
+    "core": [("write_data", "a", "a"), ("write_data", "b", "b"), ("rename_file", "a", "b"), ("rename_file", "b", "a"),
+             ("replace_file", "a", "b"), ("replace_file", "b", "a"), ("create_file", "a", "a"), ("create_file", "b", "b")],
+    "more": [("delete_file", "a", "a"), ("delete_file", "b", "b"), ("truncate_file", "a", "a"),
+             ("truncate_file", "b", "b"), ("read_data", "a", "a"), ("read_data", "b", "b")],
+}
+
+
+def read_tree(root):
+    after = Tree()
+    for k in UNIVERSE:
+        pp = root / k
+        if pp.is_dir():
+            after.kind[k] = "dir"
+        elif pp.exists():
+            after.kind[k] = "file"
+            f = FileC(0, 0)
+            f.log = [(0, pp.read_bytes())]
+            after.files[k] = f
+    return after
+
+
+def h_seq(ctx, K, alphabet):
+    """K operations in a row on ONE NativeFilestore object over the names a and b: the object may carry
+    state from one call to the next (the one-step harness cannot see that)"""
+    w = World(ctx)
+    bind(w.sym)
+    steps = [st for name in alphabet for st in SEQ_STEPS[name]]
+    t = Tree()
+    for k in ("a", "b"):
+        if ctx.pick("kind_" + k, ["absent", "file"]) == "file":
+            t.kind[k] = "file"
+            t.files[k] = FileC(UNIVERSE.index(k) + 1, ctx.int("len_" + k, 0, 8))
+    x = ctx.int("x", 0, 40)
+    root = None
+    fs = NativeFilestore()
+    if w.sym:
+        OS.tree = t.clone()
+        P = OsPath
+    else:
+        root = Path(tempfile.mkdtemp(prefix="vfc17s-"))
+        for k, f in t.files.items():
+            (root / k).write_bytes(f.bytes_conc())
+        P = lambda s: root / s  # noqa: E731
+    try:
+        for i in range(K):
+            op, p, q = steps[ctx.choice(f"step{i}", len(steps))]
+            off = ctx.int(f"off{i}", 0, 8) if op in ("write_data", "read_data") else 0
+            pl = ctx.int(f"plen{i}", 0, 8) if op == "write_data" else 0
+            rlen = ctx.int(f"rlen{i}", 0, 16) if op == "read_data" else 0
+            ctx.note(i, op, p, q)
+            payload = SymBytes(PAYLOAD_SRC + i, 0, pl) if w.sym else pattern(PAYLOAD_SRC + i, 0, pl)
+            want_res, want_tree = reference(t, op, p, q, off, payload, rlen)
+            try:
+                got = call_real(fs, op, P, p, q, off, payload, rlen)
+            except Exception as e:  # noqa: BLE001 - judged below
+                got = e
+            after = OS.tree if w.sym else read_tree(root)
+            judge(ctx, w, op, t, want_res, want_tree, got, after, x, p, off, rlen)
+            t = want_tree
+            ctx.covered(f"step{i}:{op}")
+    finally:
+        if root is not None:
+            real_shutil.rmtree(root, ignore_errors=True)
+
+
 def judge(ctx, w, op, before, want_res, want_tree, got, after, x, p, off, rlen):
     silent = want_res is ANY_UNCHANGED
     if silent:
@@ -623,11 +712,18 @@ def plan(tier):
             for q in qs:
                 specs.append(Spec(f"{op}/{p}" + (f"->{q}" if op in TWO_PATH else ""), "vf.harness.c17:harness",
                                   {"op": op, "p": p, "q": q}, twin_share=1.0))
+    # sequences on one filestore object (state carried from call to call)
+    specs.append(Spec("sequence/K=4/core", "vf.harness.c17:h_seq", {"K": 4, "alphabet": ["core"]}, twin_share=0.1))
+    specs.append(Spec("sequence/K=3/core+more", "vf.harness.c17:h_seq", {"K": 3, "alphabet": ["core", "more"]},
+                      twin_share=0.1))
+    if tier != "quick":
+        specs.append(Spec("sequence/K=4/core+more", "vf.harness.c17:h_seq", {"K": 4, "alphabet": ["core", "more"]},
+                          twin_share=0.02))
     return specs
 
 
 BOUNDS = {
-    "quick": "universe a, b, d, d/a, d/e (+ m/x whose parent never exists); every tree-consistent assignment absent/file/directory (directories: a, b, d) with symbolic file lengths 0..64; one operation of 13 (create/delete/rename/replace file, create/remove directory (plain and recursive), truncate, write at offset, read at offset, size, exists, is_directory) with every path choice (two-path operations over a reduced set of path pairs), symbolic offset 0..64, payload length 0..32, read length 0..96; content compared at a symbolic witness index; one step from an arbitrary state covers histories over this universe",
+    "quick": "universe a, b, d, d/a, d/e (+ m/x whose parent never exists); every tree-consistent assignment absent/file/directory (directories: a, b, d) with symbolic file lengths 0..64; one operation of 13 (create/delete/rename/replace file, create/remove directory (plain and recursive), truncate, write at offset, read at offset, size, exists, is_directory) with every path choice (two-path operations over a reduced set of path pairs), symbolic offset 0..64, payload length 0..32, read length 0..96; content compared at a symbolic witness index; one step from an arbitrary state covers histories over this universe as long as the filestore object itself is stateless; therefore also: every sequence of K=4 operations from {write, rename, replace, create} and of K=3 from those plus {delete, truncate, read} on ONE filestore object over the names a, b (offsets/lengths 0..8)",
     "thorough": "all 36 path pairs for the two-path operations",
 }
 OUTSIDE = "names outside the universe, symlinks, permissions, list_directory (shells out), rename/replace of a path onto itself; where the documentation is silent (missing parent directory for rename/create_directory, truncate/write/read/size on a directory) any outcome that leaves the tree unchanged is accepted"
